@@ -5,7 +5,7 @@
     than [m] probes returns [Hang], and [run] then ends with the output [RFail true].  [not_fail w]
     says that [w] is neither a hang nor a panic. *)
 From Coq Require Import List NArith Permutation.
-From Algo.C02 Require Import Model Spec ProofsChain ProofsLinear ProofsQuad ProofsDouble.
+From Algo.C02 Require Import Model Spec ProofsChain ProofsLinear ProofsQuad ProofsDouble ProofsGap.
 Import ListNotations.
 
 (** Separate chaining (no probe loop: buckets are walked structurally): no operation of any history
@@ -71,7 +71,7 @@ Qed.
 Definition C03_terminates_double_full : Prop :=
   forall (K V : Type) (eqb : K -> K -> bool) (eqv : V -> V -> bool) (hash : K -> N) (minlf maxlf : lf),
     (forall a b, eqb a b = true <-> a = b) ->
-    valid_soft minlf maxlf ->
+    valid_dbl minlf maxlf ->
     forall (cap : nat), valid_cap_prime cap ->
     forall (orc : nat -> nat -> list nat -> list nat), (forall i j l, Permutation (orc i j l) l) ->
     forall ops : list (op K V),
@@ -83,6 +83,42 @@ Proof.
   intros G K V eqb eqv hash minlf maxlf He Hv cap Hc orc Ho ops. split.
   - eapply outs_match_no_fail. apply double_refines; eauto.
   - erewrite outs_match_length by (apply double_refines; eauto). apply run_spec_length.
+Qed.
+
+(** Without any hypothesis, for histories of bounded length (up to 2^29 operations with the default
+    maxLF = 1/2): the prime gap is checked by computation up to [gap_bound] = 2^31, see Properties/C02.v. *)
+Theorem C03_terminates_quadratic_bounded :
+  forall (K V : Type) (eqb : K -> K -> bool) (eqv : V -> V -> bool) (hash : K -> N) (minlf maxlf : lf),
+    (forall a b, eqb a b = true <-> a = b) ->
+    valid_soft minlf maxlf ->
+    forall (cap : nat), valid_cap_prime cap ->
+    forall (orc : nat -> nat -> list nat -> list nat), (forall i j l, Permutation (orc i j l) l) ->
+    forall ops : list (op K V),
+      2 * lf_den maxlf * length ops <= lf_num maxlf * gap_bound ->
+      Forall (not_fail K V) (run K V eqb eqv hash minlf maxlf orc Quadratic cap ops) /\
+      length (run K V eqb eqv hash minlf maxlf orc Quadratic cap ops) = length ops.
+Proof.
+  intros K V eqb eqv hash minlf maxlf He Hv cap Hc orc Ho ops Hl.
+  pose proof (quad_refines_gen K V eqb eqv hash minlf maxlf He Hv gap_bound (length ops) prime_gap_checked Hl
+                cap orc ops Hc Ho (le_n _)) as R.
+  split; [eapply outs_match_no_fail; eauto|]. erewrite outs_match_length by eauto. apply run_spec_length.
+Qed.
+
+Theorem C03_terminates_double_bounded :
+  forall (K V : Type) (eqb : K -> K -> bool) (eqv : V -> V -> bool) (hash : K -> N) (minlf maxlf : lf),
+    (forall a b, eqb a b = true <-> a = b) ->
+    valid_dbl minlf maxlf ->
+    forall (cap : nat), valid_cap_prime cap ->
+    forall (orc : nat -> nat -> list nat -> list nat), (forall i j l, Permutation (orc i j l) l) ->
+    forall ops : list (op K V),
+      2 * lf_den maxlf * length ops <= lf_num maxlf * gap_bound ->
+      Forall (not_fail K V) (run K V eqb eqv hash minlf maxlf orc Double cap ops) /\
+      length (run K V eqb eqv hash minlf maxlf orc Double cap ops) = length ops.
+Proof.
+  intros K V eqb eqv hash minlf maxlf He Hv cap Hc orc Ho ops Hl.
+  pose proof (double_refines_gen K V eqb eqv hash minlf maxlf He Hv gap_bound (length ops) prime_gap_checked Hl
+                cap orc ops Hc Ho (le_n _)) as R.
+  split; [eapply outs_match_no_fail; eauto|]. erewrite outs_match_length by eauto. apply run_spec_length.
 Qed.
 
 (** D03's history on the model of the repaired code: [Put i; Delete i] for 40 fresh keys, then a Put
@@ -110,3 +146,5 @@ Print Assumptions C03_terminates_chain.
 Print Assumptions C03_terminates_linear.
 Print Assumptions C03_terminates_quadratic_partial.
 Print Assumptions C03_terminates_double_partial.
+Print Assumptions C03_terminates_quadratic_bounded.
+Print Assumptions C03_terminates_double_bounded.
